@@ -82,8 +82,7 @@ func (core *JApiCore) next(lexeme scanner.Lexeme) *jerr.JApiError {
 		return nil
 
 	case scanner.ContextExplicitOpening:
-		core.processContextBegin()
-		return nil
+		return core.processContextBegin(lexeme)
 
 	case scanner.ContextExplicitClosing:
 		return core.processContextEnd()
@@ -123,8 +122,14 @@ func (core *JApiCore) processBody(lexeme scanner.Lexeme) {
 	core.currentDirective.BodyCoords = coordsFromLexeme(lexeme)
 }
 
-func (core *JApiCore) processContextBegin() {
+func (core *JApiCore) processContextBegin(lexeme scanner.Lexeme) *jerr.JApiError {
+	// A directive has one context. A second "(" used to be absorbed, so that "( (" was
+	// closed by a single ")" and the missing one went unnoticed at the end of input.
+	if core.currentDirective.HasExplicitContext {
+		return core.japiError("the context of the directive is already opened", lexeme.Begin())
+	}
 	core.currentDirective.HasExplicitContext = true
+	return nil
 }
 
 func (core *JApiCore) closeLastExplicitContext() *jerr.JApiError {
